@@ -124,13 +124,13 @@ class Prop:
         for N in (2, 3):
             for kinds in itertools.product(KINDS, repeat=N):
                 for mu in range(-N, N):
-                    if quick and N == 3 and rng.random() > 0.5:
+                    if quick and N == 3 and rng.random() > 0.7:
                         continue
                     mk(rt(N, list(kinds)), [["orth", mu]], "orth-lattice", mu_pos=("first" if mu % N == 0 else
                                                                                  "last" if mu % N == N - 1 else "middle"))
         # 2. seeded formats, N = 4, 5
         for N in (4, 5):
-            for _ in range(120 if quick else 1200):
+            for _ in range(200 if quick else 1500):
                 mk(rt(N, maxr=rng.choice([2, 3, 4])), [["orth", rng.randint(-N, N - 1)]], "orth-random")
         # 3. degenerate inputs: zero tensors, rank-deficient (0/1 entries, constant cores), size-1 modes, rank 1
         for _ in range(60 if quick else 500):
@@ -171,7 +171,7 @@ class Prop:
             mu = rng.randint(0, N - 2) if op == "left" else rng.randint(1, N - 1)
             mk(tj, [[op, mu]], "single-degenerate")
         # 5. histories
-        for _ in range(250 if quick else 2500):
+        for _ in range(500 if quick else 4000):
             N = rng.randint(2, 5)
             tj = rt(N, maxr=rng.choice([2, 3, 4]))
             L = rng.randint(2, 4)
@@ -267,6 +267,18 @@ class Prop:
             else:
                 nb = mu + 1 if op == "left" else mu - 1
                 pc = _np(prev["modes"][nb]["core"])
+                if pc.ndim == 2:
+                    # the step converts CP cores first (documented): compare against the converted old neighbour
+                    s_, R_ = pc.shape
+                    if nb == 0:
+                        pc = pc[None, :, :]
+                    elif nb == N - 1:
+                        pc = pc.T[:, :, None]
+                    else:
+                        g = np.zeros((R_, s_, R_))
+                        for r_ in range(R_):
+                            g[r_, :, r_] = pc[:, r_]
+                        pc = g
                 cm = _np(cores[mu]); cn = _np(cores[nb])
                 if cm.ndim != 3 or cn.ndim != 3 or pc.ndim != 3:
                     return False, where + "CP core was not converted to a TT core"
